@@ -4,6 +4,7 @@ import (
 	"fmt"
 	"go/token"
 	"go/types"
+	"regexp"
 	"sort"
 	"strings"
 
@@ -144,6 +145,100 @@ func init() {
 				[]ValAssume{lenOfFieldIs("c", 2, "math/polynomial")}, "invoke (group.Scalar).Mul", true)
 			c.reachRule(p, "C17.evalconst", "the empty polynomial evaluates to zero (no coefficient is read)", ev, nil, nil,
 				[]ValAssume{lenOfFieldIs("c", 0, "math/polynomial")}, "invoke (group.Scalar).Set", false)
+		}
+	}
+}
+
+// simotTranscriptRule: the three key derivations of the simplest-OT protocol (sender k0 and k1, receiver kR)
+// hash transcripts of one shape: A ‖ B ‖ P with A and B the two protocol messages (fields A and B of the
+// party) and P one freshly computed group element, each in its whole MarshalBinary encoding, and nothing
+// else. A party that encodes a further input differently from its peer derives a key the peer does not
+// hold; a transcript cut to a fixed width stops depending on P in the larger groups.
+func (c *Ctx) simotTranscriptRule(p *Program, rule string) {
+	type site struct {
+		fn   *ssa.Function
+		desc string
+		pos  string
+	}
+	var sites []site
+	anchors := map[*ssa.Function]bool{}
+	for _, fm := range [][2]string{{"Sender", "Round2Sender"}, {"Receiver", "Round3Receiver"}} {
+		f := p.Func("ot/simot", fm[0], fm[1])
+		if f == nil {
+			c.undecided(rule, "simplest OT: "+fm[1]+" key derivation transcript", "function does not resolve", "")
+			return
+		}
+		anchors[f] = true
+	}
+	sp := p.SSAPkg[circlPath+"/ot/simot"]
+	var fns []*ssa.Function
+	for f := range p.AllFuncs {
+		if f.Blocks != nil && f.Pkg == sp {
+			fns = append(fns, f)
+		}
+	}
+	sort.Slice(fns, func(i, j int) bool { return fns[i].String() < fns[j].String() })
+	inAnchors := 0
+	for _, f := range fns {
+		for _, b := range f.Blocks {
+			for _, in := range b.Instrs {
+				call, ok := in.(*ssa.Call)
+				if !ok {
+					continue
+				}
+				name := ""
+				if call.Call.IsInvoke() {
+					name = call.Call.Method.Name()
+				} else if sc := call.Call.StaticCallee(); sc != nil {
+					name = sc.Name()
+				}
+				if name != "Write" || len(call.Call.Args) == 0 {
+					continue
+				}
+				arg := call.Call.Args[len(call.Call.Args)-1]
+				sites = append(sites, site{f, descVal(arg), p.pos(call.Pos())})
+				if anchors[f] {
+					inAnchors++
+				}
+			}
+		}
+	}
+	what := "simplest OT: the three key derivations hash A ‖ B ‖ P in whole encodings"
+	c.count("simot_transcripts", len(sites))
+	if len(sites) == 0 || (inAnchors != 0 && inAnchors != 3) {
+		c.bad(rule, what, fmt.Sprintf("%d hash inputs found in the package, %d of them in Round2Sender and Round3Receiver (three expected there, or all of them in a shared helper)", len(sites), inAnchors), "")
+		return
+	}
+	mb := `call:invoke \([^)]*\)\.MarshalBinary\(recv=`
+	want := regexp.MustCompile(`^concat\(` + mb + `param#0\.A\)#0 ‖ ` + mb + `param#0\.B\)#0 ‖ ` + mb + `call:invoke \(group\.Group\)\.NewElement\([^‖]*\)\)#0\)$`)
+	// a shared helper sees the three elements as its own operands: three whole encodings and nothing else
+	helper := regexp.MustCompile(`^concat\(` + mb + `[^‖]*\)#0 ‖ ` + mb + `[^‖]*\)#0 ‖ ` + mb + `[^‖]*\)#0\)$`)
+	var bad []string
+	for _, s := range sites {
+		if !anchors[s.fn] {
+			if !helper.MatchString(s.desc) {
+				bad = append(bad, fmt.Sprintf("%s (%s): hash input is %s", s.pos, fname(s.fn), s.desc))
+			}
+			continue
+		}
+		if !want.MatchString(s.desc) {
+			bad = append(bad, fmt.Sprintf("%s (%s): hash input is %s", s.pos, fname(s.fn), s.desc))
+		}
+	}
+	if len(bad) > 0 {
+		c.bad(rule, what, strings.Join(bad, "; "), p.fnPos(sites[0].fn))
+		return
+	}
+	c.ok(rule, what, "three hash inputs of the shape A.MarshalBinary ‖ B.MarshalBinary ‖ P.MarshalBinary", p.fnPos(sites[0].fn))
+}
+
+func init() {
+	prev := registry["C16"]
+	registry["C16"] = func(c *Ctx) {
+		prev(c)
+		if p := c.Prog("amd64"); p != nil {
+			c.Clauses = append(c.Clauses, "C16.ottranscript: sender and receiver of the simplest OT hash transcripts of one shape (A ‖ B ‖ P, whole encodings, nothing else)")
+			c.simotTranscriptRule(p, "C16.ottranscript")
 		}
 	}
 }
